@@ -877,7 +877,7 @@ class FnAnalysis:
         am = self.addr_taken_mut()
         args = tuple(('refv', self.local_value(a[1][1], at))
                      if (a[0] == 'ref' and a[1][0] == 'local' and a[1][1] not in am) else a for a in args)
-        return ('call', name, args, None if pure else at, decl)
+        return ('call', name, args, None if pure else at, decl, key)
 
 
 def simp_deref(e):
